@@ -559,6 +559,43 @@ def gen_harness(model, types, header_path, ws):
                 b += "    %s(o);\n    CHECK(box_drops == 0 && !bad_release, \"%s: null drop functions are not called\");\n}\n" % (w["name"], desc)
                 o.append(b)
                 tests.append((tn2, desc + " (null guard)", w["name"]))
+    # ---- the C helper snippets every emitted header carries (the C side of callbacks and iterators): a buffer iterator
+    # yields exactly the buffer's elements, in order, then reports the end (also for an EMPTY buffer); the static collect
+    # callback stores at most `capacity` items in order and says "stop" when full; memcpy bounds are CBMC's own checks
+    if model["id"] == "obj_box_arc" and "buf_iter_next" in open(header_path).read():
+        o.append("""static void test_helper_buf_iter(void) {
+    ND(uint32_t, b0); ND(uint32_t, b1); ND(uint32_t, b2);
+    uint32_t buf[3] = { b0, b1, b2 };
+    ND(size_t, n); ASSUME(n <= 3);
+    struct BufferIterator it = { (const char *) buf, n, 0, sizeof(uint32_t) };
+    for (size_t k = 0; k < n; k++) {
+        uint32_t out = 0;
+        CHECK(buf_iter_next(&it, &out) == 0, "buffer iterator: 0 for an item");
+        CHECK(out == buf[k], "buffer iterator: items in order");
+    }
+    uint32_t out2 = 0x5A5A5A5A;
+    CHECK(buf_iter_next(&it, &out2) != 0, "buffer iterator: ends after the last item (also when the buffer is empty)");
+    CHECK(buf_iter_next(&it, &out2) != 0 && out2 == 0x5A5A5A5A, "buffer iterator: stays ended, writes nothing");
+}
+static void test_helper_collect_static(void) {
+    uint32_t store[3] = { 0, 0, 0 };
+    ND(size_t, cap); ASSUME(cap <= 3);
+    ND(size_t, m); ASSUME(m <= 4);
+    struct CollectBase cb = { (char *) store, cap, 0 };
+    size_t fed = 0;
+    for (size_t k = 0; k < m; k++) {
+        uint32_t v = 100 + (uint32_t) k;
+        bool more = cb_collect_static_base(&cb, sizeof(uint32_t), &v);
+        fed++;
+        CHECK(more == (cb.size < cap), "static collect: continues exactly while there is room");
+        if (!more) break;
+    }
+    CHECK(cb.size == (fed < cap ? fed : cap), "static collect: stores min(offered, capacity) items");
+    for (size_t k = 0; k < cb.size; k++) CHECK(store[k] == 100 + k, "static collect: items in order");
+}
+""")
+        tests.append(("test_helper_buf_iter", "helper buf_iter_next", "buf_iter_next"))
+        tests.append(("test_helper_collect_static", "helper cb_collect_static_base", "cb_collect_static_base"))
     o.append("int main(void) {\n    ND(unsigned, which);\n    switch (which) {\n")
     for i, (tn, desc, wn) in enumerate(tests):
         o.append("    case %d: %s(); break;\n" % (i, tn))
